@@ -1,5 +1,5 @@
 """C06 - a read holds SQLite's SHARED lock from its first page read until it returns"""
-import os, random, shutil, sqlite3
+import os, random, shutil, subprocess, sys, sqlite3
 from vlib import core, sqlfmt
 from checks.common import check_obligations
 from checks import lockutil as lk
@@ -117,18 +117,53 @@ def check(run):
             else:
                 run.violation(msg, {"kind": "lock-not-held", "db": path, "scenario": action, "probe": got, "writer": wr})
     # a nested call on the same handle from inside the callback must not take the lock away from the outer call
-    run.count()
-    core.session_send(impl, "hold normal select t a,b")
-    lines = core.session_read_until(impl, lambda l: l == "paused" or l.startswith("held"))
-    if lines[-1] == "paused":
-        core.session_send(impl, "nest")
-        nest = core.session_read_until(impl, lambda l: l.startswith("f2 "))
+    # (through every entry point: each takes the lock itself, fails on the held lock or not, and must leave the outer lock alone)
+    for nested in ("nest", "nest select", "nest selectrowid", "nest iselect", "nest iselecteq", "nest pkselect"):
+        run.count(); dist["nested"] = dist.get("nested", 0) + 1
+        core.session_send(impl, "hold normal select t a,b")
+        lines = core.session_read_until(impl, lambda l: l == "paused" or l.startswith("held"))
+        if lines[-1] == "paused":
+            core.session_send(impl, nested)
+            nest = core.session_read_until(impl, lambda l: l.startswith("f2 "))
+            got = lk.show(lk.probe(path)); wr = lk.try_commit(path)
+            core.session_send(impl, "resume")
+            core.session_read_until(impl, lambda l: l.startswith("held"))
+            if got != exp_locked or wr != "locked":
+                run.violation("after a nested call on the same handle (%s: %s) from inside the callback another process sees [%s]; a writer's COMMIT is '%s'" % (nested, nest[-1], got, wr),
+                              {"kind": "lock-not-held", "db": path, "scenario": "%s inside Select's callback" % nested, "probe": got, "writer": wr})
+            got = lk.show(lk.probe(path)); wr = lk.try_commit(path)
+            if got != exp_after or wr != "committed":
+                run.violation("after the outer call with a nested %s returned, another process sees [%s]; a writer's COMMIT is '%s'" % (nested, got, wr),
+                              {"kind": "lock-not-released", "db": path, "scenario": "%s inside Select's callback" % nested, "probe": got, "writer": wr})
+    # an RLock that fails must hold nothing afterwards: another process has one of the lock regions; every entry point fails; the
+    # process holds no lock of its own (a leaked read lock on PENDING would keep every writer out for good)
+    for region in ("shared", "pending"):
+        start, ln = lk.REGIONS[region]
+        holder = subprocess.Popen([sys.executable, "-c",
+                                   "import fcntl,os,sys\nfd=os.open(sys.argv[1],os.O_RDWR)\nfcntl.lockf(fd,fcntl.LOCK_EX|fcntl.LOCK_NB,%d,%d,0)\nprint('held',flush=True)\nsys.stdin.readline()\n" % (ln, start), path],
+                                  stdin=subprocess.PIPE, stdout=subprocess.PIPE, stderr=subprocess.DEVNULL)
+        if holder.stdout.readline().strip() != b"held":
+            holder.wait()
+            got = lk.show(lk.probe(path))
+            run.violation("the %s region cannot be locked by another process although no read is running: the lock table shows [%s] (a lock leaked by an earlier failed read?)" % (region, got),
+                          {"kind": "lock-leak-after-failed-rlock", "db": path, "region": region, "probe": got})
+            continue
+        for cmd in ("select t 0 a", "selectrowid t 1 a", "iselect t t_a a", "pkselect t i1 a", "columns t"):
+            run.count(); dist["failed_rlock"] = dist.get("failed_rlock", 0) + 1
+            o = impl.cmd(cmd)
+            if not any(l.startswith(("end err", "err ", "columns err")) or " err" in l for l in o):
+                run.violation("%s while another process holds a write lock on the %s region: no error (%s)" % (cmd, region, o[-2:]),
+                              {"kind": "rlock-not-refused", "db": path, "command": cmd, "region": region, "impl": o[-3:]})
+            got = lk.probe(path)
+            mine = {r: v for r, v in got.items() if r != region}
+            if any(v != "-" for v in mine.values()):
+                run.violation("%s failed because another process holds the %s region; afterwards the reader's process still holds a lock: %s" % (cmd, region, lk.show(got)),
+                              {"kind": "lock-leak-after-failed-rlock", "db": path, "command": cmd, "region": region, "probe": lk.show(got)})
+        holder.stdin.close(); holder.wait()
         got = lk.show(lk.probe(path)); wr = lk.try_commit(path)
-        core.session_send(impl, "resume")
-        core.session_read_until(impl, lambda l: l.startswith("held"))
-        if got != exp_locked or wr != "locked":
-            run.violation("after a nested call on the same handle (%s) from inside the callback another process sees [%s]; a writer's COMMIT is '%s'" % (nest[-1], got, wr),
-                          {"kind": "lock-not-held", "db": path, "scenario": "nested Columns() inside Select's callback", "probe": got, "writer": wr})
+        if got != exp_after or wr != "committed":
+            run.violation("after reads that failed on a held %s region and the holder's release, another process sees [%s]; a writer's COMMIT is '%s'" % (region, got, wr),
+                          {"kind": "lock-leak-after-failed-rlock", "db": path, "region": region, "probe": got, "writer": wr})
     impl.close(); model.close()
     run.cov["traces_validated_against_impl"] = dist["probes"]
     run.cov["rule"] = ("a real file, the real pager, real POSIX locks: every select-like entry point (Select, SelectDone, SelectRowid, IndexedSelect, IndexedSelectEq, PKSelect on rowid / "
